@@ -148,6 +148,47 @@ Theorem run_plugins_fail : forall m shown name pr rest ws,
 Proof. exact PluginFacts.run_plugins_fail. Qed.
 Print Assumptions run_plugins_fail.
 
+(* ---------------------------------------------------------------- the outcome, exactly and end to end *)
+
+(* thriftgo goes on with a plugin's answer EXACTLY when the process exited with status 0, its
+   stdout decodes and the decoded Error is unset or empty; in every other case it fails *)
+Theorem outcome_proceed_iff : forall name pr,
+  (exists ws cs, outcome name pr = Proceed ws cs) <->
+  (exists out err r, pr = Exited 0 out err /\ unmarshal_response out = Some r /\ no_error r).
+Proof. exact PluginFacts.outcome_proceed_iff. Qed.
+Print Assumptions outcome_proceed_iff.
+
+Theorem outcome_fail_iff : forall name pr,
+  (exists ws, outcome name pr = Fail ws) <->
+  ~ (exists out err r, pr = Exited 0 out err /\ unmarshal_response out = Some r /\ no_error r).
+Proof. exact PluginFacts.outcome_fail_iff. Qed.
+Print Assumptions outcome_fail_iff.
+
+(* from the response VALUE a plugin builds (not from abstract bytes): exit 0 after writing the
+   encoding of an error-free r (anything may follow): exactly r's contents are handed on, in
+   order, exactly r's warnings and then the stderr note are shown *)
+Theorem response_honoured : forall name r rest err,
+  response_ok r = true -> no_error r ->
+  outcome name (Exited 0 (marshal_response r ++ rest) err) = Proceed (shown_of name err r) (get_list (rs_contents r)).
+Proof. exact PluginFacts.response_honoured. Qed.
+Print Assumptions response_honoured.
+
+Theorem response_error_fails : forall name r rest err c e,
+  response_ok r = true -> rs_error r = Some (c :: e) ->
+  exists ws, outcome name (Exited 0 (marshal_response r ++ rest) err) = Fail ws.
+Proof. exact PluginFacts.response_error_fails. Qed.
+Print Assumptions response_error_fails.
+
+(* a whole run in which every plugin answers with an error-free response: the file manager is
+   fed every plugin's contents, plugin after plugin, and all warnings are shown in order *)
+Theorem run_plugins_all_honoured : forall (ps : list (bytes * response)) m shown m',
+  Forall (fun p => response_ok (snd p) = true /\ no_error (snd p)) ps ->
+  feed_all m (map snd ps) = FileManager.Ok m' ->
+  run_plugins m shown (map (fun p => (fst p, Exited 0 (marshal_response (snd p)) [])) ps) =
+  ROk (shown ++ List.concat (map (fun p => get_list (rs_warnings (snd p))) ps)) m'.
+Proof. exact PluginFacts.run_plugins_all_honoured. Qed.
+Print Assumptions run_plugins_all_honoured.
+
 (* ---------------------------------------------------------------- the plugin loop of Generate *)
 
 (* Whatever the external processes do ([run]), whatever the option lists are (empty ones
